@@ -114,15 +114,15 @@ def _select(ctx, exports, rnd, quick):
         for k in keyfn(e):
             if not near[k] or (_cost(e["path"]) <= _cost(near[k][0]["path"]) + 1 and len(near[k]) < 4):
                 near[k].append(e)
-    # the representative of a stratum: seeded choice among the cheapest paths the model printed for it (the thorough tier
-    # takes a second one where the model printed several)
+    # the representative of a stratum: seeded choice among the cheapest paths the model printed for it (with VERIF_LIFE_SECOND
+    # set the thorough tier takes a second one where the model printed several)
     best, second = {}, {}
     for k in sorted(near):
         c = list(near[k])
         rnd.shuffle(c)
         best[k] = c[0]
-        if not quick and len(c) > 1:
-            second[k] = c[1]
+        if not quick and len(c) > 1 and os.environ.get("VERIF_LIFE_SECOND"):
+            second[k] = c[1]        # (opt-in: doubles the thorough tier, ~9 000 paths / ~57 000 blocks)
     rest = sorted(best)
     rnd.shuffle(rest)
     budget = 4500 if quick else 10 ** 9
